@@ -4,8 +4,17 @@
 // One request = one behaviour: a sequence of AddField / RemoveField / AddDoc /
 // RemoveDoc steps, with a flag per step saying whether the index is observed after
 // it.  An observation calls EVERY public query method of KVIndex for every field,
-// term and range of the universe given in the setup line.  The store is emptied and
-// a new KVIndex is created before every behaviour, so behaviours cannot interfere.
+// term and range of the universe given in the setup line.
+//
+// Isolation.  Opening a Badger store costs about a second of CPU and deleted keys
+// stay in Badger as versions that later scans step over, so a store per behaviour or
+// emptying the store between behaviours is not affordable for 10^5 behaviours.
+// Every behaviour therefore gets a new KVIndex object and its own namespace in a
+// shared store: field path p becomes "n<i>.p" (the documents are nested one level
+// deeper accordingly) and document id d becomes "d~n<i>"; the names are mapped
+// back in the answers.  Behaviours whose request carries "fresh":true are run on a
+// newly created, empty store: the check driver re-runs every divergent behaviour
+// that way and only reports what reproduces there.
 //
 // The harness contains no expected values: it only executes and reports.  Because
 // hundreds of thousands of observations repeat a few hundred distinct answers, an
@@ -45,7 +54,7 @@ type handler struct {
 	kv       kvi.KVInterface
 	fields   []string        // universe of field paths
 	terms    [][]interface{} // universe of probe terms, tagged ["s",txt] / ["n",k]
-	bounds   []int           // range limits (spec integers)
+	ranges   [][2]int        // range queries lo, hi (spec integers)
 	emb      string          // number embedding: "halves" or "extreme"
 	qtimeout time.Duration
 	seen     map[string]bool
@@ -54,11 +63,21 @@ type handler struct {
 	gen      int
 	used     int
 	perStore int
+	ns       string // namespace of the behaviour being replayed
+}
+
+func (h *handler) path(f string) string  { return h.ns + "." + f }
+func (h *handler) docID(d string) string { return d + "~" + h.ns }
+func (h *handler) unDocID(d string) string {
+	if strings.HasSuffix(d, "~"+h.ns) {
+		return strings.TrimSuffix(d, "~"+h.ns)
+	}
+	return "foreign:" + d
 }
 
 // New returns the request handler of the kvidx harness.
 func New() sup.Handler {
-	n := 40
+	n := 20000
 	if v, err := strconv.Atoi(os.Getenv("KVIDX_PER_STORE")); err == nil && v > 0 {
 		n = v
 	}
@@ -79,10 +98,13 @@ func (h *handler) Setup(req map[string]interface{}) error {
 	for _, t := range asList(req["terms"]) {
 		h.terms = append(h.terms, asList(t))
 	}
-	for _, b := range asList(req["bounds"]) {
-		h.bounds = append(h.bounds, int(b.(float64)))
+	for _, r := range asList(req["ranges"]) {
+		p := asList(r)
+		h.ranges = append(h.ranges, [2]int{int(p[0].(float64)), int(p[1].(float64))})
 	}
-	sort.Ints(h.bounds)
+	sort.Slice(h.ranges, func(i, j int) bool {
+		return h.ranges[i][0] < h.ranges[j][0] || (h.ranges[i][0] == h.ranges[j][0] && h.ranges[i][1] < h.ranges[j][1])
+	})
 	h.emb, _ = req["emb"].(string)
 	if h.emb == "" {
 		h.emb = "halves"
@@ -235,7 +257,7 @@ func (h *handler) buildDoc(v map[string]interface{}) (map[string]interface{}, er
 		if err != nil {
 			return nil, err
 		}
-		parts := strings.Split(path, ".")
+		parts := strings.Split(h.path(path), ".")
 		cur := doc
 		for _, p := range parts[:len(parts)-1] {
 			nxt, ok := cur[p].(map[string]interface{})
@@ -293,7 +315,8 @@ func (h *handler) within(method string, f func()) *hangInfo {
 }
 
 // observe calls every public query method for one field.
-func (h *handler) observe(idx *kvindex.KVIndex, field string) (body map[string]interface{}) {
+func (h *handler) observe(idx *kvindex.KVIndex, specField string) (body map[string]interface{}) {
+	field := h.path(specField)
 	body = map[string]interface{}{}
 	var hang *hangInfo
 	run := func(method string, f func()) bool {
@@ -315,11 +338,16 @@ func (h *handler) observe(idx *kvindex.KVIndex, field string) (body map[string]i
 			body["harness_err"] = err.Error()
 			return
 		}
+		full := 0
 		for _, max := range []int{0, 1} {
+			if max == 1 && full < 2 {
+				// maxCount only matters where the full answer has at least two ids
+				break
+			}
 			ids := []string{}
 			ok := run("GetTermMatch", func() {
 				for d := range idx.GetTermMatch(context.Background(), field, val, max) {
-					ids = append(ids, d)
+					ids = append(ids, h.unDocID(d))
 				}
 			})
 			if !ok {
@@ -327,6 +355,7 @@ func (h *handler) observe(idx *kvindex.KVIndex, field string) (body map[string]i
 			}
 			sort.Strings(ids)
 			if max == 0 {
+				full = len(ids)
 				match = append(match, []interface{}{t, ids})
 			} else {
 				match1 = append(match1, []interface{}{t, ids})
@@ -365,27 +394,23 @@ func (h *handler) observe(idx *kvindex.KVIndex, field string) (body map[string]i
 		return
 	}
 	ranges := []interface{}{}
-	for _, lo := range h.bounds {
-		for _, hi := range h.bounds {
-			if lo > hi {
-				continue
-			}
-			flo, err1 := h.num(lo)
-			fhi, err2 := h.num(hi)
-			if err1 != nil || err2 != nil {
-				body["harness_err"] = fmt.Sprint(err1, err2)
-				return
-			}
-			got := []interface{}{}
-			if !run("FieldTermNumberRange", func() {
-				for c := range idx.FieldTermNumberRange(field, flo, fhi) {
-					got = append(got, []interface{}{h.unnum(c.Number), c.Count})
-				}
-			}) {
-				return
-			}
-			ranges = append(ranges, []interface{}{lo, hi, sortCanon(got)})
+	for _, r := range h.ranges {
+		lo, hi := r[0], r[1]
+		flo, err1 := h.num(lo)
+		fhi, err2 := h.num(hi)
+		if err1 != nil || err2 != nil {
+			body["harness_err"] = fmt.Sprint(err1, err2)
+			return
 		}
+		got := []interface{}{}
+		if !run("FieldTermNumberRange", func() {
+			for c := range idx.FieldTermNumberRange(field, flo, fhi) {
+				got = append(got, []interface{}{h.unnum(c.Number), c.Count})
+			}
+		}) {
+			return
+		}
+		ranges = append(ranges, []interface{}{lo, hi, sortCanon(got)})
 	}
 	body["ranges"] = ranges
 	counts := func(key, method string, q func(string) chan kvindex.KVTermCount) bool {
@@ -415,23 +440,6 @@ func (h *handler) observe(idx *kvindex.KVIndex, field string) (body map[string]i
 
 // ---------------------------------------------------------------- behaviours
 
-func (h *handler) wipe() error {
-	if err := h.kv.DeletePrefix([]byte{}); err != nil {
-		return err
-	}
-	left := 0
-	h.kv.View(func(it kvi.KVIterator) error {
-		for it.Seek([]byte{}); it.Valid(); it.Next() {
-			left++
-		}
-		return nil
-	})
-	if left != 0 {
-		return fmt.Errorf("%d keys left after wipe", left)
-	}
-	return nil
-}
-
 func catch(f func() error) (err error, pan string) {
 	defer func() {
 		if r := recover(); r != nil {
@@ -451,15 +459,18 @@ func (h *handler) Handle(req map[string]interface{}) interface{} {
 		os.Exit(7)
 	}
 	h.used++
-	if h.used > h.perStore {
+	fresh, _ := req["fresh"].(bool)
+	if h.used > h.perStore || (fresh && h.used > 1) {
 		if err := h.newStore(); err != nil {
 			resp["harness_err"] = "new store: " + err.Error()
 			return resp
 		}
+		h.used = 1
 	}
-	if err := h.wipe(); err != nil {
-		resp["harness_err"] = "wipe: " + err.Error()
-		return resp
+	if fi, ok := req["i"].(float64); ok {
+		h.ns = fmt.Sprintf("n%07d", int(fi))
+	} else {
+		h.ns = "nx"
 	}
 	idx := kvindex.NewIndex(h.kv)
 	steps := asList(req["steps"])
@@ -476,11 +487,11 @@ func (h *handler) Handle(req map[string]interface{}) interface{} {
 			case "AddField":
 				f := st["f"].(string)
 				registered[f] = true
-				return idx.AddField(f)
+				return idx.AddField(h.path(f))
 			case "RemoveField":
 				f := st["f"].(string)
 				delete(registered, f)
-				return idx.RemoveField(f)
+				return idx.RemoveField(h.path(f))
 			case "AddDoc":
 				v, _ := st["v"].(map[string]interface{})
 				doc, derr := h.buildDoc(v)
@@ -488,9 +499,9 @@ func (h *handler) Handle(req map[string]interface{}) interface{} {
 					resp["harness_err"] = derr.Error()
 					return nil
 				}
-				return idx.AddDoc(st["d"].(string), doc)
+				return idx.AddDoc(h.docID(st["d"].(string)), doc)
 			case "RemoveDoc":
-				return idx.RemoveDoc(st["d"].(string))
+				return idx.RemoveDoc(h.docID(st["d"].(string)))
 			}
 			resp["harness_err"] = "unknown op " + op
 			return nil
